@@ -88,3 +88,19 @@ Definition pcase_ok (E : cenv) (c : upot QC * list (list QC) * expected) : bool 
   let '(e, coef, x) := c in
   res_ok (upapply QC qc0 qc1 qcadd qcmul qcopp qcinv (table_of E (ce_invmass E)) (table_of E (ce_mass E)) (patoms_of E)
                   PB potential_classes e (mat_of coef)) x.
+
+(* ---- grid-function expressions: coefficients of the result (or the exception) ---- *)
+From BV Require Import Algebra.GfLang.
+Record gatom := { ga_space : nat; ga_dual : nat; ga_primal : bool; ga_vec : list QC }.
+Definition gfun_of_atom (a : gatom) : gfun QC :=
+  let v := mat_of (map (fun x => [x]) (ga_vec a)) in
+  {| g_space := ga_space a; g_dual := ga_dual a; g_rep := if ga_primal a then Primal v else DualRep v |}.
+Inductive gexpected := GCoefs (space : nat) (v : list QC) | GExn (e : exn) | GOther.
+Definition gfcase_ok (E : cenv) (c : ugf QC * gexpected) : bool :=
+  match gfeval QC qc0 qc1 qcadd qcmul qcopp qcinv (table_of E (ce_invmass E)) (table_of E (ce_mass E)) GF (fst c), snd c with
+  | Ok g, GCoefs s v =>
+      Nat.eqb (g_space g) s &&
+      mat_close (coefficients QC qc0 qcadd qcmul (table_of E (ce_invmass E)) g) (map (fun x => [x]) v)
+  | Err e, GExn e' => exn_eqb e e'
+  | _, _ => false
+  end.
